@@ -106,6 +106,39 @@ same reason the Python recursion does (every level below the root visits a new v
 theorem tree_search_fuel_suffices {fixed : Bool} {tm : TM} {f : Found} : treeNodes fixed tm f ≠ .error .fuel :=
   treeNodes_no_fuel
 
+/-
+FULL STATEMENTS NOT YET PROVED for `copy_trigger_tree_per_player` (see design.d/C06.md, "Partial"):
+
+  theorem treepp_copy_closed (hi : Inv tm)
+      (h : copyTreePPCore fixed tm s fromP players gaia = .ok (tm', ret, known, nt, disp)) :
+      tm'.trigs.take tm.trigs.length = tm.trigs ∧
+      ∀ p l, (p, l) ∈ nt → p ≠ fromP → ∀ i ut, l[i]? = some ut → ∃ k src c, known[i]? = some k ∧ tm.trigs[k]? = some src ∧
+        tm'.trigs[ut.2]? = some c ∧ c.uid = ut.1 ∧ c.effs.length = src.effs.length ∧
+        ∀ j e e', src.effs[j]? = some e → c.effs[j]? = some e' → e'.kind = e.kind ∧ (e.isAct = false → e' = e) ∧
+          (e.isAct = true → ∃ k' i' ut', e.target = some k' ∧ known[i']? = some k' ∧ l[i']? = some ut' ∧ e'.target = some ut'.2)
+      -- every player's copies point at that player's copies of the same tree
+
+  theorem treepp_group_ids_nodup (hi : Inv tm) (hfix : fixed = true) (hp : players nodup)
+      (h : copyTreePPCore fixed tm s fromP players gaia = .ok (tm1, r, known, nt, disp))
+      (hg : groupIds g fromP known nt = .ok ids) : ids.Nodup
+      -- would discharge the `InDom` hypothesis of the grouped per-player tree copy for the repaired tree search
+
+What IS proved is `treepp_step_partial` below: invariant and links of all pre-existing triggers, for every grouping,
+under the explicit hypothesis that the ids handed to `move_triggers` do not repeat (which F15 violates, `treepp_alias_counter`).
+-/
+
+/-- `copy_trigger_tree_per_player` (partial, see the comment above): the invariant is kept and every link of a
+pre-existing trigger is preserved; the copies exist only at fresh identities; the source player's own triggers are
+rewritten to the ids they already have (i.e. not at all). -/
+theorem treepp_step_partial {fixed : Bool} {tm tm' : TM} {s : Sel} {fromP : Nat} {players : Option (List Nat)}
+    {gaia : Bool} {g : Group} {ret : List (Nat × List Nat)} (hi : Inv tm)
+    (hdom : g = .none ∨ ∀ tm1 r known nt disp ids, copyTreePPCore fixed tm s fromP players gaia = .ok (tm1, r, known, nt, disp) →
+      groupIds g fromP known nt = .ok ids → ids.Nodup)
+    (h : copyTreePerPlayer fixed tm s fromP players gaia g = .ok (tm', ret)) :
+    Inv tm' ∧ LinkRel false tm tm' ∧ tm.next ≤ tm'.next := by
+  obtain ⟨g1, hle⟩ := copyTreePerPlayer_good (c := false) hi hdom h
+  exact ⟨g1.inv, g1.step.link, hle⟩
+
 /-- **import_remap** (`import_triggers`, default index; an explicit index is this followed by `move_triggers` of the new
 ids): existing triggers untouched, imported copies appended with id = position, display order reset to the identity;
 a link between imported triggers points at the imported copy of its target (the last imported trigger with that old
